@@ -195,6 +195,20 @@ fn video(bound: u16) {
     done(vm);
 }
 
+/// INT 10h AH=0Ah writes AL exactly CX times also for counts beyond one byte (CX up to 260)
+#[cfg_attr(kani, kani::proof)]
+#[cfg_attr(kani, kani::unwind(263))]
+pub fn c18_int10_count() {
+    let vm = mk_vm();
+    let pre = regs(&vm);
+    vassume!(pre.cx <= 260);
+    io::log_reset();
+    int_13(&vm, 0x0A);
+    vassert!("C18.int10_0a.exactly_cx_times", io::log_total() == pre.cx as usize);
+    vcover!("C18.int10_0a.cover.count_above_255", pre.cx == 259);
+    done(vm);
+}
+
 #[cfg_attr(kani, kani::proof)]
 #[cfg_attr(kani, kani::unwind(7))]
 pub fn c18_int10__q() {
@@ -229,6 +243,7 @@ pub const TABLE: &[(&str, fn())] = &[
     ("c18_int21_buffered_len2", c18_int21_buffered_len2),
     ("c18_int21_buffered_len2nl", c18_int21_buffered_len2nl),
     ("c18_int21_buffered_len3nl__t", c18_int21_buffered_len3nl__t),
+    ("c18_int10_count", c18_int10_count),
     ("c18_int10__q", c18_int10__q),
     ("c18_int10__t", c18_int10__t),
     ("c18_twin_reach", c18_twin_reach),
